@@ -212,6 +212,11 @@ ALSO['C10'] += ' G with references off, in energy units.'
 ALSO['C11'] += ' Offsets-only References; models appended after construction.'
 ALSO['C13'] += ' Coverage term computed from its definition; coverages 0 and 1.'
 ALSO['C17'] += ' Dimensional getter, numpy indices, exports leave the object unchanged.'
+# round 7
+ALSO['C05'] += ' An allocation may fail at a seeded instant of the writer call (the file that was there must survive); records padded with blanks by a tool; decimal-comma locale.'
+ALSO['C06'] += ' Failing allocations inside the writer; writes through symbolic links and from changing working directories; CR line ends.'
+ALSO['C07'] += ' Failing allocations inside the writer (failed call leaves the old file, absorbed failure must leave the right file); symbolic links; working directories.'
+ALSO['C16'] += ' The previous file at the name may be longer; the stored file may be cut short; warnings promoted to errors.'
 
 
 def build():
